@@ -337,7 +337,7 @@ func (w *world) copyMove(t []string, o *vu.Out) string {
 	if !resolved {
 		// no source/destination pair is named: the request must not change anything
 		if !sameMap(before, after) {
-			o.Fail("copymove-rejected-request-changed-tree", desc)
+			o.Fail("", "a request that names no source/destination pair changed the tree: "+desc)
 		}
 	} else {
 		S, D := path.Clean("/"+srcS), path.Clean("/"+dstS)
@@ -359,17 +359,7 @@ func (w *world) copyMove(t []string, o *vu.Out) string {
 			}
 			if !sameMap(subtree(before, S, except), subtree(after, S, except)) {
 				o.Stat("violation:copy:" + rel)
-				switch {
-				case srcS == dstS:
-					// textually identical: the handler's own check must have refused this
-					o.Fail("copymove-identical-destination-not-refused", desc)
-				case rel == "equal":
-					o.Fail("copymove-dst-equivalent-to-src", desc)
-				case rel == "dst-ancestor":
-					o.Fail("copymove-dst-ancestor-of-src", desc)
-				default:
-					o.Fail("copy-source-changed", desc)
-				}
+				o.Fail("", "COPY changed its source ("+rel+"): "+desc)
 			}
 		} else {
 			intact := sameMap(sb, subtree(after, S, ""))
@@ -379,18 +369,7 @@ func (w *world) copyMove(t []string, o *vu.Out) string {
 			}
 			if !intact && !moved {
 				o.Stat("violation:move:" + rel)
-				switch {
-				case srcS == dstS:
-					o.Fail("copymove-identical-destination-not-refused", desc)
-				case rel == "equal":
-					o.Fail("copymove-dst-equivalent-to-src", desc)
-				case rel == "dst-ancestor":
-					o.Fail("copymove-dst-ancestor-of-src", desc)
-				case rel == "dst-inside":
-					o.Fail("move-dst-inside-src", desc)
-				default:
-					o.Fail("move-source-destroyed", desc)
-				}
+				o.Fail("", "MOVE neither left its source intact nor moved it intact ("+rel+"): "+desc)
 			}
 			if status == http.StatusCreated || status == http.StatusNoContent {
 				o.Stat("move:success")
